@@ -6,6 +6,8 @@ CONSTANTS
   FixLeave = TRUE
   FixWrap = FALSE
   MaxTry = 2
+  TrackCov = FALSE
+  Goal = "none"
   MCLayout <- Lay4
   InitMembers = {1, 2, 4}
   Joiners = {3}
